@@ -23,8 +23,9 @@ RULE = ("a case = a simulated network of 1..4 hosts, each listening on 6445 or 2
         "both hex cases, boundary ids and ports, both versions, both listening ports. distinct = (reply fields); all non-trivial")
 ASSUMPTIONS = ["a real device ignores header filler of the probe but not its length field, type bytes, signature or payload",
                "serial numbers and names are ASCII"]
-ANCHORS = ["discover.py:Discover._get_device_version", "discover.py:Discover._get_device_info", "discover.py:Discover._get_device",
-           "discover.py:_DiscoverProtocol._send_discovery", "discover.py:Discover.discover"]
+# reach anchors: only entry points this check calls itself or callbacks the event loop needs (robust against internal refactors);
+# that the mechanism was really exercised is demanded through MIN_NONTRIVIAL / MIN_HIST outcome counts
+ANCHORS = ["discover.py:Discover.discover", "discover.py:Discover.discover_single", "discover.py:_DiscoverProtocol.datagram_received"]
 MIN_NONTRIVIAL = {"quick": 1500, "thorough": 40000}
 WORKERS = {"quick": 1, "thorough": 16}
 EXHAUSTIVE = {t: ["all 256 appliance type bytes x {lower, upper} hex x {V2, V3}", "boundary device ids and ports", "both listening ports"]
@@ -102,6 +103,13 @@ def generate(ctx, rng):
                 n += 1
                 yield ("suffix", j, version, t), {"mode": "broadcast", "auto": False,
                                                   "hosts": [_host(rng, "10.10.0.%d" % (1 + n % 200), suffix=suffix, version=version, type=t)]}
+    # serial numbers and names that are valid UTF-8 but not ASCII (the library decodes both as UTF-8 text)
+    for j, (sn_tail, suffix) in enumerate([("\u00c4\u00d6\u00fc", "1F2A"), ("", "B\u00fcro"), ("\u20ac\u20ac", "\u5ba2\u5385"), ("\u00e9", "caf\u00e9_01")]):
+        for version in (2, 3):
+            n += 1
+            sn = "".join(rng.choice(SN_CHARS) for _ in range(32 - len(sn_tail.encode()))) + sn_tail
+            yield ("utf8", j, version), {"mode": ["broadcast", "single"][j % 2], "auto": False,
+                                         "hosts": [_host(rng, "10.12.0.%d" % (1 + n % 200), sn=sn, suffix=suffix, version=version, type=0xAC)]}
     # auto-connect to a device that accepts the TCP connection and never answers, with short listening windows
     for j in range(12 if quick else 1500):
         h = _host(rng, "10.11.0.%d" % (1 + j % 200), version=2, type=0xAC, port=6444, dups=1)
